@@ -764,3 +764,25 @@ fn index_static(header: &Header) -> Option<(usize, bool)> {
         },
     }
 }
+
+// ===== verification hook (feature `verif-hooks`, off by default; add-only) =====
+
+#[cfg(feature = "verif-hooks")]
+impl Table {
+    /// Read-only view of the encoder's dynamic table for the out-of-tree
+    /// verification harness: entries (newest first) as (name, value) octets,
+    /// `size`, `max_size`.
+    pub fn verif_view(&self) -> (Vec<(Vec<u8>, Vec<u8>)>, usize, usize) {
+        let entries = self
+            .slots
+            .iter()
+            .map(|s| {
+                (
+                    s.header.name().as_slice().to_vec(),
+                    s.header.value_slice().to_vec(),
+                )
+            })
+            .collect();
+        (entries, self.size, self.max_size)
+    }
+}
